@@ -3,8 +3,8 @@
 /tmp/mut_<PID>/_seed/<k> into /verif/seeded/<PID>-<k>/ with a meta.json."""
 import json, os, shutil, sys
 pid, k, trigger = sys.argv[1], sys.argv[2], sys.argv[3]
-src = f"/tmp/mut_{pid}/_seed/{k}"
-dst = f"/verif/seeded/{pid}-{k}"
+src = os.environ.get("SEED_SRC", f"/tmp/mut_{pid}") + f"/_seed/{k}"
+dst = "/verif/seeded/" + os.environ.get("SEED_NAME", f"{pid}-{k}")
 shutil.rmtree(dst, ignore_errors=True)
 os.makedirs(dst)
 for f in os.listdir(src):
